@@ -491,7 +491,7 @@ pub fn main(args: &[String]) -> i32 {
         "regress_replayed": n_regress,
         "extra": {"corpus_size": n_corpus, "shapes (workers x classes, b = partly busy): judged/inversions": shape_stats.iter().map(|(k, v)| format!("{k}:{}/{}", v.0, v.1)).collect::<Vec<_>>().join(" ")},
         "rule": "one real scheduling decision per instance: 1-3 workers (cpus, optionally gpus/mem; idle or partly busy through an earlier decision), 1-4 single-variant single-node request classes, up to 8 priority levels, default min-utilisation; judged only if the solve completed (optimal). Part 1: a fixed seed-independent corpus of 20000 instances, every member judged in every run, failing members identified by instance key (the members failing on the unchanged tree are listed one by one in known_findings.json). Part 2: seed-dependent random instances; only single-class instances bear a verdict, inversions in the others are counted and classified (they cannot be told apart from the recorded approximation defects). Non-trivial = at least one (dispatched lower, waiting higher) pair was examined",
-        "minima": {"decisions_judged": 15000, "pairs_checked": 5000, "decisions_on_partly_busy_cluster": 3000, "exception_other_worker_busy": 20},
+        "minima": {"decisions_judged": 15000, "pairs_checked": 2000, "decisions_on_partly_busy_cluster": 1000, "exception_other_worker_busy": 8},
         "assumptions": [
             "the decision is read from the core snapshots before/after run_scheduling (tasks that went from ready to assigned); prefilled tasks (worker backlog) hold no resources and are not counted as dispatched",
             "'fits once the lower-priority tasks dispatched there are left out' = request <= free before the decision minus the requests the decision placed there with priority >= the waiting task's; the exception applies when another worker is large enough by its total resources but lacks free resources under the same rule",
